@@ -29,12 +29,12 @@ PLAN = {
     "C01": [("prop_case", 25000, 2048)],
     "C02": [("prop_case", 80000, 2048)],
     "C05": [("prop_case", 8000, 2048)],
-    "C06": [("prop_case", 25000, 2048)],
-    "C07": [("prop_case", 12000, 2048)],
+    "C06": [("prop_case", 12000, 2048)],
+    "C07": [("prop_case", 8000, 2048)],
     "C08": [("prop_case", 12000, 2048)],
     "C09": [("prop_case", 25000, 2048)],
-    "C10": [("prop_case", 12000, 2048), ("target_route", 400000, 64)],
-    "C13": [("target_route", 400000, 64)],
+    "C10": [("prop_case", 12000, 2048), ("target_route", 400000, 600)],
+    "C13": [("target_route", 400000, 600)],
     "C14": [("prop_case", 10000, 2048)],
     "C15": [("prop_case", 2400, 2048)],
     "C16": [("prop_case", 25000, 2048)],
